@@ -46,7 +46,7 @@ def mandatory_bins(tier):
     b += ["key_trailing_zero_%d" % z for z in (1, 2, 3, 15)]
     b += ["crc_lo_00:cust", "crc_hi_00:cust", "crc_both_00:cust", "crc_lo_00:update", "crc_hi_00:update", "crc_both_00:update",
           "decryptors_all", "decryptors_single", "decryptors_partial", "pass_through_block", "encrypted_config_component", "customer_key_present", "customer_key_absent",
-          "version_00", "version_ff", "version_80", "code_all_zero", "code_ends_00", "config_blob_trailing_zero_padding", "key_all_zero", "ecc_distractor_decryptors_before_the_matching_one", "ecc_distractor_encryptors_on_write", "second_write_after_replacing_a_block_of_the_same_kind", "foreign_blocks_of_unknown_kind", "session_key_contains_customer_key", "file_name_instead_of_stream", "read_with_mac_check_off", "update_block_attributes_reassigned", "stream_positioned_after_other_content", "constructed_without_block_list_then_add_auth_block", "encryptors_given_as_tuple", "encryptors_given_as_deque", "encryptors_given_as_dict_values", "several_encrypted_components", "write_and_read_by_concurrent_threads", "one_ecc_decryptor_object_shared_by_reading_threads", "session_key_buffer_refilled_in_place_between_two_writes"]
+          "version_00", "version_ff", "version_80", "code_all_zero", "code_ends_00", "config_blob_trailing_zero_padding", "key_all_zero", "ecc_distractor_decryptors_before_the_matching_one", "ecc_distractor_encryptors_on_write", "second_write_after_replacing_a_block_of_the_same_kind", "foreign_blocks_of_unknown_kind", "session_key_contains_customer_key", "file_name_instead_of_stream", "read_with_mac_check_off", "update_block_attributes_reassigned", "stream_positioned_after_other_content", "constructed_without_block_list_then_add_auth_block", "encryptors_given_as_tuple", "encryptors_given_as_deque", "encryptors_given_as_dict_values", "several_encrypted_components", "write_and_read_by_concurrent_threads", "one_ecc_decryptor_object_shared_by_reading_threads", "session_key_buffer_refilled_in_place_between_two_writes", "second_write_after_tag_list_of_a_component_changed"]
     return b
 
 
@@ -291,6 +291,22 @@ def _second_write(ns, ctx, B, f, specs, case, key, wenc, rp):
                 ctx.violation("second_write_after_block_replacement_reads_back_stale_or_wrong_blocks", {"got": got, "expected": want}, rp)
         except Exception as e:
             ctx.violation("second_write_after_block_replacement_not_readable", {"exc": fmt_exc(e)}, rp)
+    # ---- history: the tag list of an existing component changed in place (same number of components, another directory size) ----
+    comps = f.bf3file.components
+    if comps and len(case.comps) == len(comps) and not any(t == 0x71 for t, _ in case.comps[0].desc) and len(case.comps[0].desc_bytes()) <= 190 and key[3] % 2 == 0:
+        comps[0].description[0x71] = b"zz"
+        case.comps[0].desc.append((0x71, b"zz"))
+        ctx.ev()
+        ctx.bin("second_write_after_tag_list_of_a_component_changed")
+        try:
+            buf3 = io.StringIO()
+            f.write_file(buf3, wenc)
+            back = B.Bec2File.read_file(io.StringIO(buf3.getvalue()), GB.read_encryptors(ns, specs2 if upd else specs), True)
+            d = G.diff_file(back.bf3file, case)
+            if d:
+                ctx.violation("read_back_differs:after_tag_list_changed_in_place", {"diff": d}, rp)
+        except Exception as e:
+            ctx.violation("reader_rejects_file_written_by_writer:after_tag_list_changed_in_place", {"exc": fmt_exc(e)}, rp)
 
 
 def as_container(ctx, encs, sel):
